@@ -21,6 +21,10 @@ def main():
     only = set(sys.argv[1:])
     cands = json.load(open(os.path.join(HERE, "mutants", "candidates.json")))
     results = []
+    if only and os.path.exists(os.path.join(HERE, "mutants", "results.json")):
+        results = [r for r in json.load(open(os.path.join(
+            HERE, "mutants", "results.json")))
+            if r["id"] not in only and r["property"] not in only]
     respath = os.path.join(HERE, "mutants", "results.json")
     for c in cands:
         if only and c["id"] not in only and c["property"] not in only:
@@ -35,7 +39,8 @@ def main():
         try:
             path = os.path.join(wt, c["file"])
             src = open(path).read()
-            if src.count(c["old"]) != 1:
+            if src.count(c["old"]) != 1 and not (c.get("all") and
+                                                 src.count(c["old"]) > 1):
                 rec["status"] = "not-applicable-to-current-tree"
                 results.append(rec)
                 print(rec["id"], rec["status"], flush=True)
